@@ -111,6 +111,7 @@ Definition spec_event (tbl : list entry) (s : sstate) (ev : event) : sstate :=
          sp_peers := upd_peer (sp_peers s) p
                        (fun x => {| sp_ep := Some ep; sp_idx := sp_idx x; sp_key := sp_key x |}) |}
   | ShiftHs _ | Expire _ => s
+  | Down | Up => s      (* the property text ties nothing to the interface state *)
   end.
 
 Definition opt_is (o : option N) (v : N) : bool := match o with Some x => x =? v | None => false end.
